@@ -254,7 +254,7 @@ def trace_check(workdir, module, cfg, logfile, workers=4, timeout=3600, heap="6g
     # the cfg names the log file through CONSTANT LogFile = "log.ndjson": stage the log under that name
     dst = os.path.join(workdir, "log.ndjson")
     if os.path.abspath(logfile) != dst:
-        if os.path.exists(dst):
+        if os.path.lexists(dst):
             os.remove(dst)
         os.symlink(os.path.abspath(logfile), dst)
     r = run_tlc(workdir, module, cfg, workers=workers, timeout=timeout, heap=heap)
@@ -279,6 +279,70 @@ def trace_check(workdir, module, cfg, logfile, workers=4, timeout=3600, heap="6g
         log(tlc_error_text(out) or out[-3000:])
         raise NoVerdict("trace run %s/%s did not complete (tool/spec error, not a verdict)" % (module, cfg))
     return r
+
+
+def _set_path(obj, path, fn):
+    parts = path.split(".")
+    for k in parts[:-1]:
+        obj = obj.get(k) if isinstance(obj, dict) else None
+        if obj is None:
+            return
+    if isinstance(obj, dict) and isinstance(obj.get(parts[-1]), int):
+        obj[parts[-1]] = fn(obj[parts[-1]])
+
+
+def trace_check_chunked(workdir, module, cfg, logfile, chunk_nodes=15000, ptr_fields=(), workers=4, timeout=3600, heap="6g"):
+    """Like trace_check, for big logs: the log is split at root nodes (parent = 0) into chunks of about chunk_nodes
+    nodes, ids / parents (and the family's extra pointer fields, e.g. "st.root") are renumbered per chunk, TLC judges
+    every chunk, FAIL node ids are mapped back to the ids of the full log and the STATS counters are summed."""
+    chunks = []  # (path, offset, n)
+    cur, off, total = [], 0, 0
+
+    def flush():
+        nonlocal cur, off
+        if not cur:
+            return
+        path = os.path.join(workdir, "chunk_%d.ndjson" % len(chunks))
+        with open(path, "w") as f:
+            for n in cur:
+                n["id"] -= off
+                if n.get("parent", 0):
+                    n["parent"] -= off
+                for pf in ptr_fields:
+                    _set_path(n, pf, lambda x: x - off if x else x)
+                f.write(json.dumps(n) + "\n")
+        chunks.append((path, off, len(cur)))
+        off += len(cur)
+        cur = []
+
+    with open(logfile) as f:
+        for line in f:
+            if not line.strip():
+                continue
+            n = json.loads(line)
+            total += 1
+            if n.get("parent", 0) == 0 and len(cur) >= chunk_nodes:
+                flush()
+            cur.append(n)
+    flush()
+    if len(chunks) <= 1:
+        for c in chunks:
+            os.remove(c[0])
+        return trace_check(workdir, module, cfg, logfile, workers=workers, timeout=timeout, heap=heap)
+    agg = dict(fails=[], stats={}, notes=[], distinct=0, generated=0, wall=0.0, ok=True, chunks=len(chunks))
+    for path, offset, n in chunks:
+        r = trace_check(workdir, module, cfg, path, workers=workers, timeout=timeout, heap=heap)
+        agg["fails"] += [(f, nid + offset) for f, nid in r["fails"]]
+        for k, v in r["stats"].items():
+            if isinstance(v, int) and not isinstance(v, bool):
+                agg["stats"][k] = agg["stats"].get(k, 0) + v
+            else:
+                agg["stats"].setdefault(k, v)
+        agg["distinct"] += r.get("distinct", 0)
+        agg["generated"] += r.get("generated", 0)
+        agg["wall"] += r["wall"]
+        os.remove(path)
+    return agg
 
 
 def _dispatch(v, fails, stats, notes):
